@@ -6,12 +6,14 @@
    log records which callback ran on which signal: <<stage, what, input, outcome, output>>.   P-layer: property C19. *)
 EXTENDS Naturals, Sequences, FiniteSets, TLC
 Ckpt == {"none", "pass", "reject", "raise"}
-Behav(F) == [ckpt : Ckpt, proc : {"ok", "raise"}, handler : {"none", "recover", "raise"}, required : BOOLEAN, factor : F]
-Sane(b) == (b.proc = "ok" => b.handler = "none") /\ (b.proc = "raise" => b.factor = 1)
+Behav(F) == [ckpt : Ckpt, proc : {"ok", "none", "raise"}, handler : {"none", "recover", "raise"}, required : BOOLEAN, factor : F]
+   \* proc = "none": the processor completes and returns None (a validator stage); "raise" stages carry a factor too (it must not be applied)
+Sane(b) == (b.proc \in {"ok", "none"} => b.handler = "none") /\ (b.proc = "raise" => b.factor \in {1, 2}) /\ (b.proc = "none" => b.factor = 1)
 VARIABLES plan, pc, sig, log, status, amp, blockedAt, done
 vars == <<plan, pc, sig, log, status, amp, blockedAt, done>>
 N == Len(plan.stages)
 None == <<>>
+NoneSig == <<<<0, "none">>>>        \* the value None travelling as a signal
 InitP(p) == /\ plan = p /\ pc = 1 /\ sig = <<>> /\ log = <<>> /\ status = <<>> /\ amp = 1 /\ blockedAt = 0 /\ done = FALSE
 Min(a, b) == IF a < b THEN a ELSE b
 Entry(st, what, in, outc, out) == <<st, what, in, outc, out>>
@@ -23,8 +25,8 @@ Stage ==
      THEN /\ log' = L1 /\ status' = Append(status, IF b.ckpt = "reject" THEN "blocked" ELSE "failed")
           /\ blockedAt' = pc /\ UNCHANGED <<sig, amp>>
           /\ pc' = (IF plan.halt THEN N + 1 ELSE pc + 1)
-     ELSE IF b.proc = "ok"
-     THEN LET out == Append(sig, <<pc, "proc">>) IN
+     ELSE IF b.proc \in {"ok", "none"}
+     THEN LET out == IF b.proc = "none" THEN NoneSig ELSE Append(sig, <<pc, "proc">>) IN
           /\ log' = Append(L1, Entry(pc, "proc", sig, "ok", out)) /\ sig' = out
           /\ amp' = Min(amp * b.factor, plan.maxamp) /\ status' = Append(status, "completed")
           /\ pc' = pc + 1 /\ UNCHANGED blockedAt
@@ -40,7 +42,7 @@ Stage ==
 Finish == ~done /\ pc > N /\ done' = TRUE /\ UNCHANGED <<plan, pc, sig, log, status, amp, blockedAt>>
 Step == Stage \/ Finish
 Success == Len(status) = N /\ (\A k \in 1..N : status[k] = "completed") /\ blockedAt = 0
-Final == IF Success THEN sig ELSE None
+Final == IF Success /\ sig # NoneSig THEN sig ELSE None
 (* ------------------------------ P-layer (property C19) on a plan p and an outcome o ------------------------------ *)
 \* o = [log, success, final, hasFinal, amp]
 HasCkpt(p, i) == p.stages[i].ckpt # "none"
@@ -58,13 +60,17 @@ OutOf(o, i) == LET k == CHOOSE k \in 1..Len(o.log) : o.log[k][1] = i /\ o.log[k]
 InOf(o, i) == LET k == CHOOSE k \in 1..Len(o.log) : o.log[k][1] = i /\ o.log[k][2] = "proc" IN o.log[k][3]
 Chained(p, o) == \A i \in 1..Len(p.stages) : InOf(o, i) = (IF i = 1 THEN <<>> ELSE OutOf(o, i - 1))
 SuccessMeansAll(p, o) == /\ (o.success <=> AllDone(p, o))
-                         /\ (o.success => o.hasFinal /\ Chained(p, o) /\ (Len(p.stages) > 0 => o.final = OutOf(o, Len(p.stages))))
+                         /\ (o.success => /\ Chained(p, o)
+                                           /\ (Len(p.stages) > 0 => IF OutOf(o, Len(p.stages)) = NoneSig THEN ~o.hasFinal
+                                                                    ELSE o.hasFinal /\ o.final = OutOf(o, Len(p.stages))))
                          /\ (~o.success => ~o.hasFinal)
-RECURSIVE Prod(_, _, _, _)
-Prod(p, o, i, acc) == IF i > Len(p.stages) THEN acc
-                      ELSE Prod(p, o, i + 1, IF Ran(o, i, "proc", "ok") THEN Min(acc * p.stages[i].factor, p.maxamp) ELSE acc)
-Amplification(p, o) == o.amp = Prod(p, o, 1, 1)
-Me == [log |-> log, success |-> Success, final |-> Final, hasFinal |-> Success, amp |-> amp]
+RECURSIVE Prod(_, _, _, _, _)
+Prod(p, o, S, i, acc) == IF i > Len(p.stages) THEN acc
+                         ELSE Prod(p, o, S, i + 1, IF Ran(o, i, "proc", "ok") \/ i \in S THEN Min(acc * p.stages[i].factor, p.maxamp) ELSE acc)
+Recovered(p, o) == {i \in 1..Len(p.stages) : Ran(o, i, "proc", "raise") /\ Ran(o, i, "handler", "ok")}
+\* "completed stages": a stage whose processor returned; whether a stage completed through its error handler counts is left open (the code does not count it)
+Amplification(p, o) == \E S \in SUBSET Recovered(p, o) : o.amp = Prod(p, o, S, 1, 1)
+Me == [log |-> log, success |-> Success, final |-> Final, hasFinal |-> (Success /\ sig # NoneSig), amp |-> amp]
 POK == done => GateFirst(plan, Me) /\ FailClosed(plan, Me) /\ HaltStops(plan, Me) /\ SuccessMeansAll(plan, Me) /\ Amplification(plan, Me)
 Terminates == <>done
 ===============================================================================
